@@ -1,3 +1,4 @@
+import operator
 from dataclasses import dataclass, field
 from datetime import date
 from uuid import UUID
@@ -244,12 +245,15 @@ class RuleAttributeCondition(RuleProcessingCondition):
                 f"Unsupported type '{type(value)}' in rule attribute condition {str(self)}."
             )
 
+        if self.op not in self.op_methods:  # in/not_in are only defined for list attributes
+            raise SigmaConfigurationError(
+                f"Invalid operation '{self.op}' for a non-list attribute in rule attribute condition {str(self)}."
+            )
         try:
-            return bool(getattr(value, self.op_methods[self.op])(compare_value))
-        # bool(NotImplemented) used to return `True` with Python<3.14
-        except TypeError:
-            return True
-        except AttributeError:  # operation not supported by value type
+            # The comparison is made with the operator: calling the method of the value directly
+            # yields NotImplemented (which is true) if e.g. an integer is compared with a float.
+            return bool(getattr(operator, self.op_methods[self.op])(value, compare_value))
+        except TypeError:  # operation not supported by value type
             return False
 
 
